@@ -67,7 +67,7 @@ func h14Symbolic(i, dims int) h14Res {
 	r.c = pick(dims&4 != 0, "c", []byte{0, 'x'}, 0)
 	r.nm = pick(dims&8 != 0, "nm", []byte{'P', 'Q'}, 'P')
 	r.s = pick(dims&16 != 0, "s", []byte{0, '1', '2'}, 0)
-	r.file = pick(dims&32 != 0, "file", []byte{'f', 'g'}, 'f')
+	r.file = pick(dims&32 != 0, "file", []byte{'f', 'g', 'h'}, 'f')
 	if dims&64 != 0 {
 		r.u1 = vndChoice("u1", 3)
 	} else {
